@@ -35,7 +35,7 @@ class Ob:
     def __init__(self, name, harness, srcs=(), defs=(), unwind=1, unwindset=(), replace=(), lib=None,
                  flags=(), drop_checks=(), witness=True, budget=None, tier='quick', functions=(),
                  bounds='', assumptions=(), stubs=(), mask=(), replay=True, mem_gb=12, inc=(),
-                 witness_defs=(), no_base_defs=False, solver='kissat', gen=None, nosimplify=False, memwords=64, nobody_ok=()):
+                 witness_defs=(), no_base_defs=False, solver='kissat', gen=None, nosimplify=False, memwords=64, nobody_ok=(), native_mem=False):
         self.name, self.harness, self.srcs, self.defs = name, harness, list(srcs), list(defs)
         self.unwind, self.unwindset, self.replace, self.lib = unwind, list(unwindset), list(replace), lib
         self.flags, self.drop_checks, self.witness, self.budget = list(flags), list(drop_checks), witness, budget
@@ -43,6 +43,9 @@ class Ob:
         self.assumptions, self.stubs, self.mask, self.replay = list(assumptions), list(stubs), list(mask), replay
         self.mem_gb, self.inc, self.witness_defs, self.no_base_defs, self.solver = mem_gb, list(inc), list(witness_defs), no_base_defs, solver
         self.gen = gen
+        # native_mem: use cbmc's own memset/memcpy models instead of the word-loop wrappers (right for constant sizes; the harness must
+        # then carry value assertions that would expose a wrong model)
+        self.native_mem = native_mem
         self.nobody_ok = list(nobody_ok)   # functions deliberately left without a body (arbitrary result is the intended stub)
         self.memwords = memwords  # largest mem* size in 4-byte words (loop bound of the wrappers in vt_mem_impl.c)
         # cbmc 6.11's expression simplifier mis-reads `row[sym]` when row points at a constant row >= 1 of a top-level
@@ -117,7 +120,7 @@ class Runner:
         if not ob.no_base_defs:
             a += BASE_DEFS
         a += ob.defs + list(extra_defs)
-        if not native:
+        if not native and not ob.native_mem:
             a += ['-include', os.path.join(VERIF, 'harness', 'vt_mem.h')]
         return a
 
